@@ -1,6 +1,7 @@
 import ERP.Model.Plugin
 import ERP.FloatOps
 import ERP.Spec.Reader
+import ERP.Spec.Sys
 /-! Line-protocol driver: runs the `Float` instance of the model. One operation per input line,
 one or two output lines per operation. Strings are hex-encoded UTF-8, numbers are the 16 hex digits
 of the IEEE double. Numbers inside rendered commands appear as U+0001 <bits in decimal> U+0002 and
@@ -204,6 +205,7 @@ structure DState where
   plugin : Plugin Float := Plugin.initialize {}
   sp : StreamProc Float := { st := FState.reset [] }
   spLive : FState Float := FState.reset []
+  rp : Spec.Printer Float := (Sys.start ([] : List (Region Float))).virt
 
 def lineOutD (line : Text) : LineOut Float → String
   | .unchanged => "line " ++ hexs line
@@ -258,6 +260,24 @@ def step (d : DState) (line : String) : DState × List String :=
     match splitGcodeScript source with
     | .ok none => (d, ["ok N"])
     | .ok (some ls) => (d, ["ok " ++ (if ls.isEmpty then "-" else ",".intercalate (ls.map hexs))])
+    | .error e => (d, ["err " ++ e.name])
+  -- ---------------- the reference printer of the specifications (`Spec/Printer.lean`)
+  | ["rpnew"] => ({ d with rp := (Sys.start ([] : List (Region Float))).virt }, ["ok"])
+  | ["rpexec", g, cmd] =>
+    match ({} : Parser).parse (some (unhexs cmd)) with
+    | .ok p =>
+      let code := match p.gcode with | some c => String.ofList c | none => ""
+      let words : List (Char × Option Float) := wordsOf (parameterItems p.parameters)
+      let rp := d.rp.exec (g == "1") inchF (Code.ofString code) words
+      let ax (a : Axis Float) : String :=
+        s!"{fnum (a.current.map (· + 0.0))},{hexf (a.offset + 0.0)},{hexf (a.homeOffset + 0.0)}"
+      ({ d with rp := rp },
+        ["ok " ++ " ".intercalate [ax rp.pos.x, ax rp.pos.y, ax rp.pos.z,
+          "abs=" ++ (if rp.pos.x.absoluteMode then "1" else "0"),
+          "eabs=" ++ (if rp.pos.e.absoluteMode then "1" else "0"),
+          "unit=" ++ hexf rp.pos.x.unitMultiplier, "e=" ++ fnum (rp.pos.e.current.map (· + 0.0)),
+          "fil=" ++ hexf (rp.fil + 0.0), "hw=" ++ hexf (rp.hw + 0.0),
+          "fw=" ++ (if rp.fwRetracted then "1" else "0")]])
     | .error e => (d, ["err " ++ e.name])
   | ["specwords", src] =>
     let ws : List (Char × Option Float) := C19.specRead (unhexs src)
